@@ -27,6 +27,8 @@ func effectFree(name string) bool {
 		"(*github.com/scionproto/scion/router.Metrics", "(github.com/scionproto/scion/router.trafficMetrics",
 		"github.com/scionproto/scion/pkg/private/util.", "time.Sleep", "(*time.Timer).", "(*time.Ticker).",
 		"(context.Context).", "context.",
+		"net/netip.", "(net/netip.Addr).", "(net/netip.AddrPort).", "(net/netip.Prefix).",
+		"(net.IP).", "net.ParseIP", "(*net.UDPAddr).String", "(*net.IPNet).",
 	} {
 		if strings.HasPrefix(name, p) {
 			return true
@@ -318,6 +320,7 @@ func (x *Exec) modularCall(st *State, fr *Frame, ci *ssa.Call, c *FuncContract, 
 	}
 	bindResults(vars, sig, results)
 	penv := &Env{x: x, st: st, oldSt: pre, vars: vars, pkg: pkg}
+	x.applyGsets(st, penv, c)
 	for _, en := range c.ensures {
 		t, err := penv.EvalBool(en.expr)
 		if err != nil {
